@@ -11,11 +11,28 @@ from .c12 import mutate
 from .c15 import utils_documents, other_number
 from .c16 import dump_to_jv
 
-EDITS = ["identity", "permute", "key_case_in_array", "key_case_in_array", "string_change", "bool_flip", "type_change", "key_rename", "member_add", "member_drop", "element_add",
+EDITS = ["identity", "permute", "value_moves", "value_moves", "key_case_in_array", "key_case_in_array", "string_change", "bool_flip", "type_change", "key_rename", "member_add", "member_drop", "element_add",
          "element_drop", "element_drop", "element_swap", "number_step", "key_case"]
 
 
 def edit(jv, kind, rnd):
+    if kind == "value_moves":
+        # a value changes place inside its container: a member's value now sits under a sibling's name (that sibling's old value
+        # is gone, the member itself too), or an array element moves to another index - "renames" a diff might try to detect
+        out = copy.deepcopy(jv)
+        sites = [n for n in model.walk_jv(out) if n[0] in "AO" and len(n[1]) >= 2]
+        if not sites:
+            return jv, False
+        c = rnd.choice(sites)
+        i, j = rnd.sample(range(len(c[1])), 2)
+        if c[0] == "O":
+            c[1][j][1] = c[1][i][1]
+            if rnd.random() < 0.7:
+                del c[1][i]
+        else:
+            v = c[1].pop(i)
+            c[1].insert(j, v)
+        return out, True
     if kind == "number_step":
         sites = [n for n in model.walk_jv(jv) if n[0] == "N"]
         if not sites:
